@@ -52,7 +52,12 @@ Top == st[Len(st)]
 Running == outcome = "running" /\ st # <<>>
 
 \* applyAsyncSignal: panic(SigInterrupt)
-Service == /\ outcome' = "interrupted" /\ st' = <<>>
+\* (the stack is kept so that the deferred calls the panic must still run can be counted)
+Service == /\ outcome' = "interrupted" /\ st' = st
+
+\* the interrupt is a panic: while it unwinds, the deferred closure of every active function
+\* that has one ("u" activations) runs, exactly once
+Cleanups == Cardinality({i \in 1..Len(st) : st[i].kind = "u"})
 
 \* the poll after a statement: returns the activation with updated counters, or "service"
 AfterStmt(A) ==
@@ -85,12 +90,12 @@ Stmt ==
                 /\ hooks' = IF s = "h" THEN hooks + 1 ELSE hooks
                 /\ hooksAfter' = IF s = "h" /\ async THEN hooksAfter + 1 ELSE hooksAfter
                 /\ async' = async1
-                /\ IF s \in {"c", "d"}
+                /\ IF s \in {"c", "d", "u"}
                    THEN \* a call: the callee's activation tests the flag at entry
                         IF async1 /\ EntryCheck
                         THEN Service
                         ELSE /\ st' = Append([st EXCEPT ![Len(st)] = A1],
-                                             [Act(IF s = "c" THEN shape.fn ELSE shape.dfn, s) EXCEPT !.born = async1])
+                                             [Act(IF s = "c" THEN shape.fn ELSE IF s = "d" THEN shape.dfn ELSE shape.ufn, s) EXCEPT !.born = async1])
                              /\ UNCHANGED outcome
                    ELSE IF polled /\ async1
                         THEN Service
@@ -120,6 +125,7 @@ Outcome == outcome = "interrupted" => async
 Live == async ~> (outcome = "interrupted")
 
 Emit == IF EmitOn /\ outcome = "interrupted"
-        THEN PrintT(ToJson([shape |-> shape, k |-> k, hooksAfter |-> hooksAfter, since |-> since, bound |-> Bound]))
+        THEN PrintT(ToJson([shape |-> shape, k |-> k, hooksAfter |-> hooksAfter, since |-> since, bound |-> Bound,
+                            cleanups |-> Cleanups]))
         ELSE TRUE
 =============================================================================
